@@ -151,7 +151,11 @@ template <class D> struct WidenHarness : Harness {
           WOps<D>::plain(v, tw, *tx, nullptr);
           ctx.stat("widen.twin_compared");
           if (!same_value(w, tw) || fingerprint(tw, probes) != fingerprint(w, probes)) {
-            ctx.violation("C08", "representation-dependent", kl(op, vn, ""), "the widening of equal arguments built differently gives a different set");
+            // NNC polyhedra: the library documents that its widenings work on the internal (epsilon) representation;
+            // that is where the arguments' construction history shows through (known finding F21)
+            std::string disc;
+            if constexpr (Dom<D>::kind == POLY) { if (Dom<D>::nnc) { D cy(y), cx(*x); if (!cy.is_topologically_closed() || !cx.is_topologically_closed()) disc = "nnc-not-closed"; } }
+            ctx.violation("C08", "representation-dependent", kl(op, vn, disc), "the widening of equal arguments built differently gives a different set");
             if (getenv("VERIF_TRACE")) std::cerr << "TRACE y\n" << dump_of(y) << "TRACE x\n" << dump_of(*x) << "TRACE w\n" << dump_of(w) << "TRACE tw\n" << dump_of(tw) << "\n";
             break;
           }
